@@ -21,7 +21,8 @@
    with it (refinement), Spec.v.
 
    Ordinary nodes are [nat], augmented names are [FN i] = ('F', i), [SN i] = ('S', i); only directed edges
-   are modelled (ordinary u -> v, augmented a -> v). *)
+   are modelled (ordinary u -> v, augmented a -> v, and F-node -> augmented node: the code accepts existing
+   augmented nodes as intervention targets, e.g. when all of G.nodes is passed). *)
 From Coq Require Import List Arith Bool Lia.
 From PG Require Import Base.ListSet Base.Sx.
 Import ListNotations.
@@ -78,8 +79,18 @@ Definition addoe (e : nat * nat) (l : list (nat * nat)) : list (nat * nat) := if
 Definition children (a : aug) (es : list (aug * nat)) : list nat :=
   map snd (filter (fun e => aug_eqb a (fst e)) es).
 
+(* edges F-node -> augmented node *)
+Definition aae_eqb (e f : aug * aug) : bool := aug_eqb (fst e) (fst f) && aug_eqb (snd e) (snd f).
+Definition addaae (e : aug * aug) (l : list (aug * aug)) : list (aug * aug) := if existsb (aae_eqb e) l then l else l ++ [e].
+Definition achildren (a : aug) (es : list (aug * aug)) : list aug :=
+  map snd (filter (fun e => aug_eqb a (fst e)) es).
+Fixpoint anodupb (l : list aug) : bool :=
+  match l with [] => true | x :: t => negb (amemb x t) && anodupb t end.
+Definition aseteqb (l m : list aug) : bool :=
+  forallb (fun a => amemb a m) l && forallb (fun a => amemb a l) m.
+
 (* ---------------------------------------------------------------- state *)
-Record fentry := { f_targets : list nat; f_domain : list nat }.
+Record fentry := { f_targets : list nat; f_atargets : list aug; f_domain : list nat }.
 Record cell := { fr : list (nat * fentry); sr : list (nat * (nat * nat)) }.
 
 Record gstate := {
@@ -88,9 +99,11 @@ Record gstate := {
   anodes : list aug;               (* augmented nodes present in the graph *)
   oedges : list (nat * nat);       (* directed edges among ordinary nodes *)
   aedges : list (aug * nat);       (* directed edges augmented node -> ordinary node *)
+  aaedges : list (aug * aug);      (* directed edges F-node -> augmented node *)
   reg : nat;                       (* reference to the registry cell *)
   idom : list nat;                 (* per-instance `domains` *)
-  gF : list (nat * list nat);      (* abstract: F index -> targets it was created with *)
+  gF : list (nat * list nat);      (* abstract: F index -> ordinary targets it was created with *)
+  gFa : list (nat * list aug);     (* abstract: F index -> augmented targets it was created with *)
   gS : list (nat * (nat * nat))    (* abstract: S index -> domain pair it was created with *)
 }.
 
@@ -105,7 +118,7 @@ Definition as_coded : cfg := {| share_copy := true; class_domains := true; len_n
 
 (* ---------------------------------------------------------------- operations *)
 Inductive lop :=                     (* operations on one object *)
-| LAddF (ts : list nat)              (* add_f_node(ts) *)
+| LAddF (ts : list nat) (ats : list aug)   (* add_f_node(ts + ats) *)
 | LAddFs (tss : list (list nat))     (* add_f_nodes_from(tss) *)
 | LAddS (d1 d2 : nat) (ch : list nat)(* add_s_node((d1,d2), ch) *)
 | LRemove (a : aug)                  (* remove_node(a) *)
@@ -123,32 +136,33 @@ Inductive op :=
 (* local state of an object while it is operated on: the object, its registry cell, its view of `domains` *)
 Definition lstate := (gstate * cell * list nat)%type.
 
-Definition set_g_aug (g : gstate) an ae gf gs on : gstate :=
-  {| gcls := gcls g; onodes := on; anodes := an; oedges := oedges g; aedges := ae; reg := reg g; idom := idom g;
-     gF := gf; gS := gs |}.
+Definition set_g_aug (g : gstate) an ae aae gf gfa gs on : gstate :=
+  {| gcls := gcls g; onodes := on; anodes := an; oedges := oedges g; aedges := ae; aaedges := aae; reg := reg g;
+     idom := idom g; gF := gf; gFa := gfa; gS := gs |}.
 
 Definition new_f (k : cfg) (g : gstate) (c : cell) : nat :=
   if len_names k then length (fr c) else next_idx (f_idx (anodes g)).
 Definition new_s (k : cfg) (g : gstate) (c : cell) : nat :=
   if len_names k then length (sr c) else next_idx (s_idx (anodes g)).
 
-Definition add_f (k : cfg) (ts : list nat) (s : lstate) : lstate * nat :=
+Definition add_f (k : cfg) (ts : list nat) (ats : list aug) (s : lstate) : lstate * nat :=
   let '(g, c, d) := s in
-  if negb (nodupb ts) then (s, 1)
-  else if existsb (fun e => seteqb ts (f_targets (snd e))) (fr c) then (s, 1)
-  else if negb (subsetb ts (onodes g)) then (s, 1)
+  if negb (nodupb ts && anodupb ats) then (s, 1)
+  else if existsb (fun e => seteqb ts (f_targets (snd e)) && aseteqb ats (f_atargets (snd e))) (fr c) then (s, 1)
+  else if negb (subsetb ts (onodes g) && forallb (fun a => amemb a (anodes g)) ats) then (s, 1)
   else
     let i := new_f k g c in
     let a := FN i in
     let g' := set_g_aug g (adda a (anodes g)) (fold_left (fun es t => addae (a, t) es) ts (aedges g))
-                        (set_key i ts (gF g)) (gS g) (onodes g) in
-    let c' := {| fr := set_key i {| f_targets := ts; f_domain := [1] |} (fr c); sr := sr c |} in
+                        (fold_left (fun es t => addaae (a, t) es) ats (aaedges g))
+                        (set_key i ts (gF g)) (set_key i ats (gFa g)) (gS g) (onodes g) in
+    let c' := {| fr := set_key i {| f_targets := ts; f_atargets := ats; f_domain := [1] |} (fr c); sr := sr c |} in
     ((g', c', d), 0).
 
 Fixpoint add_fs (k : cfg) (tss : list (list nat)) (s : lstate) : lstate * nat :=
   match tss with
   | [] => (s, 0)
-  | ts :: rest => let '(s', st) := add_f k ts s in
+  | ts :: rest => let '(s', st) := add_f k ts [] s in
                   match st with 0 => add_fs k rest s' | _ => (s', st) end
   end.
 
@@ -158,8 +172,8 @@ Definition add_s (k : cfg) (d1 d2 : nat) (ch : list nat) (s : lstate) : lstate *
   else
     let i := new_s k g c in
     let a := SN i in
-    let g' := set_g_aug g (adda a (anodes g)) (fold_left (fun es t => addae (a, t) es) ch (aedges g))
-                        (gF g) (set_key i (d1, d2) (gS g)) (unionn (onodes g) ch) in
+    let g' := set_g_aug g (adda a (anodes g)) (fold_left (fun es t => addae (a, t) es) ch (aedges g)) (aaedges g)
+                        (gF g) (gFa g) (set_key i (d1, d2) (gS g)) (unionn (onodes g) ch) in
     let c' := {| fr := fr c; sr := set_key i (d1, d2) (sr c) |} in
     ((g', c', unionn d [d1; d2]), 0).
 
@@ -171,7 +185,9 @@ Definition unregister (keep_s : bool) (a : aug) (c : cell) : cell :=
 
 Definition drop_node (a : aug) (g : gstate) : gstate :=
   set_g_aug g (aremove a (anodes g)) (filter (fun e => negb (aug_eqb a (fst e))) (aedges g))
+            (filter (fun e => negb (aug_eqb a (fst e)) && negb (aug_eqb a (snd e))) (aaedges g))
             (match a with FN i => remove_key i (gF g) | SN _ => gF g end)
+            (match a with FN i => remove_key i (gFa g) | SN _ => gFa g end)
             (match a with SN i => remove_key i (gS g) | FN _ => gS g end) (onodes g).
 
 Definition is_ag (c : cls) : bool := match c with AG => true | APAG => false end.
@@ -191,29 +207,29 @@ Definition remove_augs (k : cfg) (l : list aug) (s : lstate) : lstate * nat :=
 
 Definition lstep (k : cfg) (l : lop) (s : lstate) : lstate * nat :=
   match l with
-  | LAddF ts => add_f k ts s
+  | LAddF ts ats => add_f k ts ats s
   | LAddFs tss => add_fs k tss s
   | LAddS d1 d2 ch => add_s k d1 d2 ch s
   | LRemove a => remove_aug k a s
   | LRemoves l => remove_augs k l s
   | LAddNode n => let '(g, c, d) := s in
-                  ((set_g_aug g (anodes g) (aedges g) (gF g) (gS g) (addn n (onodes g)), c, d), 0)
+                  ((set_g_aug g (anodes g) (aedges g) (aaedges g) (gF g) (gFa g) (gS g) (addn n (onodes g)), c, d), 0)
   | LAddEdge u v => let '(g, c, d) := s in
                   (({| gcls := gcls g; onodes := addn v (addn u (onodes g)); anodes := anodes g;
-                       oedges := addoe (u, v) (oedges g); aedges := aedges g; reg := reg g; idom := idom g;
-                       gF := gF g; gS := gS g |}, c, d), 0)
+                       oedges := addoe (u, v) (oedges g); aedges := aedges g; aaedges := aaedges g; reg := reg g;
+                       idom := idom g; gF := gF g; gFa := gFa g; gS := gS g |}, c, d), 0)
   end.
 
 Definition set_idom (g : gstate) (d : list nat) : gstate :=
-  {| gcls := gcls g; onodes := onodes g; anodes := anodes g; oedges := oedges g; aedges := aedges g; reg := reg g;
-     idom := d; gF := gF g; gS := gS g |}.
+  {| gcls := gcls g; onodes := onodes g; anodes := anodes g; oedges := oedges g; aedges := aedges g;
+     aaedges := aaedges g; reg := reg g; idom := d; gF := gF g; gFa := gFa g; gS := gS g |}.
 Definition set_reg (g : gstate) (r : nat) : gstate :=
-  {| gcls := gcls g; onodes := onodes g; anodes := anodes g; oedges := oedges g; aedges := aedges g; reg := r;
-     idom := idom g; gF := gF g; gS := gS g |}.
+  {| gcls := gcls g; onodes := onodes g; anodes := anodes g; oedges := oedges g; aedges := aedges g;
+     aaedges := aaedges g; reg := r; idom := idom g; gF := gF g; gFa := gFa g; gS := gS g |}.
 
 Definition new_gstate (c : cls) (vs : list nat) (r : nat) : gstate :=
-  {| gcls := c; onodes := unionn [] vs; anodes := []; oedges := []; aedges := []; reg := r; idom := [];
-     gF := []; gS := [] |}.
+  {| gcls := c; onodes := unionn [] vs; anodes := []; oedges := []; aedges := []; aaedges := []; reg := r; idom := [];
+     gF := []; gFa := []; gS := [] |}.
 
 Definition dom_of (k : cfg) (w : world) (g : gstate) : list nat := if class_domains k then cdom w else idom g.
 
@@ -246,20 +262,21 @@ Definition run (k : cfg) (ops : list op) : world := fold_left (fun w o => fst (s
 (* ---------------------------------------------------------------- observation of one object *)
 Record obs := {
   ob_cls : cls; ob_onodes : list nat; ob_anodes : list aug; ob_oedges : list (nat * nat);
-  ob_aedges : list (aug * nat); ob_cell : cell; ob_dom : list nat }.
+  ob_aedges : list (aug * nat); ob_aaedges : list (aug * aug); ob_cell : cell; ob_dom : list nat }.
 
 Definition observe (k : cfg) (w : world) (o : nat) : option obs :=
   match nth_error (objs w) o with
   | None => None
   | Some g => Some {| ob_cls := gcls g; ob_onodes := onodes g; ob_anodes := anodes g; ob_oedges := oedges g;
-                      ob_aedges := aedges g; ob_cell := nth (reg g) (heap w) empty_cell; ob_dom := dom_of k w g |}
+                      ob_aedges := aedges g; ob_aaedges := aaedges g; ob_cell := nth (reg g) (heap w) empty_cell; ob_dom := dom_of k w g |}
   end.
 
 (* ---------------------------------------------------------------- wire format (name-free rendering)
    case  = L [I mode; L rawops]            mode 0 = good, 1 = as_coded
    rawop = L [I 0; I cls; nats vs]         NewGraph
          | L [I 1; I o]                    Copy
-         | L [I 2; I o; nats ts]           add_f_node
+         | L [I 2; I o; nats ts; L [L [kind; pos]…]]  add_f_node(ts + the augmented nodes at these registry positions)
+         | L [I 9; I o]                    add_f_node(set(G.nodes)): every ordinary node and every registered augmented node
          | L [I 3; I o; natss tss]         add_f_nodes_from
          | L [I 4; I o; I d1; I d2; nats]  add_s_node
          | L [I 5; I o; I kind; I pos]     remove_node(the pos-th key of the F (kind 0) / S (kind 1) registry of o)
@@ -286,7 +303,13 @@ Definition decode_op (w : world) (s : sx) : option op :=
   match sx_nat (sx_nth s 0) with
   | 0 => Some (NewGraph (match sx_nat (sx_nth s 1) with 0 => AG | _ => APAG end) (sx_nats (sx_nth s 2)))
   | 1 => Some (Copy o)
-  | 2 => Some (On o (LAddF (sx_nats (sx_nth s 2))))
+  | 2 => Some (On o (LAddF (sx_nats (sx_nth s 2))
+                            (flat_map (fun p => opt_list (resolve_aug w o (fst p) (snd p))) (sx_pairs (sx_nth s 3)))))
+  | 9 => match nth_error (objs w) o with
+         | None => None
+         | Some g => let c := nth (reg g) (heap w) empty_cell in
+                     Some (On o (LAddF (onodes g) (map FN (keys (fr c)) ++ map SN (keys (sr c)))))
+         end
   | 3 => Some (On o (LAddFs (sx_natss (sx_nth s 2))))
   | 4 => Some (On o (LAddS (sx_nat (sx_nth s 2)) (sx_nat (sx_nth s 3)) (sx_nats (sx_nth s 4))))
   | 5 => option_map (fun a => On o (LRemove a)) (resolve_aug w o (sx_nat (sx_nth s 2)) (sx_nat (sx_nth s 3)))
@@ -296,12 +319,23 @@ Definition decode_op (w : world) (s : sx) : option op :=
   | _ => None
   end.
 
+(* name-free rendering of an augmented node: (kind, position in the registry), (2, 0) when it is not registered *)
+Fixpoint index_of (i : nat) (l : list nat) (n : nat) : option nat :=
+  match l with [] => None | x :: t => if Nat.eqb i x then Some n else index_of i t (S n) end.
+Definition render_aug (c : cell) (a : aug) : nat * nat :=
+  match a with
+  | FN i => match index_of i (keys (fr c)) 0 with Some p => (0, p) | None => (2, 0) end
+  | SN i => match index_of i (keys (sr c)) 0 with Some p => (1, p) | None => (2, 0) end
+  end.
+
 Definition render_obj (k : cfg) (w : world) (g : gstate) : sx :=
   let c := nth (reg g) (heap w) empty_cell in
   L [ I (if is_ag (gcls g) then 0 else 1);
       of_nats (sort_set (onodes g));
       L (map (fun e => L [of_bool (amemb (FN (fst e)) (anodes g)); of_nats (sort_set (f_targets (snd e)));
-                          of_nats (sort_set (f_domain (snd e))); of_nats (sort_set (children (FN (fst e)) (aedges g)))])
+                          of_nats (sort_set (f_domain (snd e))); of_nats (sort_set (children (FN (fst e)) (aedges g)));
+                          of_pairs (psort_set (map (render_aug c) (f_atargets (snd e))));
+                          of_pairs (psort_set (map (render_aug c) (achildren (FN (fst e)) (aaedges g))))])
              (fr c));
       L (map (fun e => L [of_bool (amemb (SN (fst e)) (anodes g)); I (fst (snd e)); I (snd (snd e));
                           of_nats (sort_set (children (SN (fst e)) (aedges g)))])
